@@ -296,14 +296,41 @@ def path_eq(E, a, b):
     return b_and(*cs)
 
 
+class CompIter(ListIter):
+    """Components / path::Iter: remembers where each component lies in the path for as_path()"""
+
+    def __init__(self, items, raw, src):
+        ListIter.__init__(self, items)
+        self.raw = raw
+        self.src = src
+
+    def clone(self, E):
+        c = CompIter(self.items, self.raw, self.src)
+        c.i, c.j = self.i, self.j
+        return c
+
+    def as_path(self):
+        r = self.raw[self.i:self.j]
+        if not r:
+            return Slice(self.src.buf, self.src.b, self.src.b, 'Path')
+        return Slice(self.src.buf, r[0][1].a, r[-1][1].b, 'Path')
+
+
 @model('Path::components', 'PathBuf::components')
 def _components(E, ci, p):
-    return ListIter([comp_value(k, s) for k, s in path_components(E, p)])
+    raw = path_components(E, p)
+    return CompIter([comp_value(k, s) for k, s in raw], raw, as_slice(p))
 
 
 @model('Path::iter', 'PathBuf::iter')
 def _path_iter(E, ci, p):
-    return ListIter([comp_os_str(comp_value(k, s)) for k, s in path_components(E, p)])
+    raw = path_components(E, p)
+    return CompIter([comp_os_str(comp_value(k, s)) for k, s in raw], raw, as_slice(p))
+
+
+@model('Components::as_path', 'path::Iter::as_path')
+def _components_as_path(E, ci, it):
+    return deref(it).as_path()
 
 
 @model('Component::as_os_str')
